@@ -761,6 +761,95 @@ class _FieldRename(ast.NodeTransformer):
         return node
 
 
+class _ModuleConstants(ast.NodeTransformer):
+    """a module-level name bound once to an immutable constant expression (a number, `10**9`, `Fraction(1, 2)`, a string,
+    a tuple of such or of type names) is read through at its uses inside functions and class bodies: `TOL = 1e-6 ...
+    abs(d) < TOL` is `abs(d) < 1e-6`.  (Magic numbers given names; the rules read literals.)"""
+
+    TYPE_NAMES = {"int", "float", "str", "bool", "bytes", "complex", "tuple", "list", "Fraction", "Decimal", "Real", "Number",
+                  "Rational", "Integral"}
+
+    def __init__(self, tree):
+        stores = {}
+        for n in ast.walk(tree):
+            if isinstance(n, ast.Name) and isinstance(n.ctx, (ast.Store, ast.Del)):
+                stores[n.id] = stores.get(n.id, 0) + 1
+            if isinstance(n, (ast.Global, ast.Nonlocal)):
+                for nm in n.names:
+                    stores[nm] = stores.get(nm, 0) + 2
+            if isinstance(n, (ast.FunctionDef, ast.AsyncFunctionDef, ast.ClassDef)):
+                stores[n.name] = stores.get(n.name, 0) + 2
+            if isinstance(n, ast.arg):
+                pass
+        self.consts = {}
+        for st in tree.body:
+            if isinstance(st, (ast.Assign, ast.AnnAssign)) and getattr(st, "value", None) is not None:
+                tgts = st.targets if isinstance(st, ast.Assign) else [st.target]
+                if len(tgts) == 1 and isinstance(tgts[0], ast.Name) and stores.get(tgts[0].id) == 1 \
+                        and self._constant(st.value):
+                    self.consts[tgts[0].id] = st.value
+        self.shadow = [set()]
+        self.depth = 0
+
+    def _constant(self, e):
+        if isinstance(e, ast.Constant):
+            return not isinstance(e.value, (bytes,)) or True
+        if isinstance(e, ast.UnaryOp) and isinstance(e.op, (ast.USub, ast.UAdd)):
+            return self._constant(e.operand)
+        if isinstance(e, ast.BinOp) and isinstance(e.op, (ast.Add, ast.Sub, ast.Mult, ast.Div, ast.Pow, ast.FloorDiv)):
+            return self._constant(e.left) and self._constant(e.right)
+        if isinstance(e, ast.Call) and isinstance(e.func, ast.Name) and e.func.id in ("Fraction", "float", "int") and not e.keywords:
+            return all(self._constant(a) for a in e.args)
+        if isinstance(e, ast.Tuple):
+            return all(self._constant(x) or (isinstance(x, ast.Name) and x.id in self.TYPE_NAMES) for x in e.elts)
+        if isinstance(e, ast.Name):
+            return e.id in getattr(self, "consts", {})
+        if isinstance(e, ast.Attribute) and isinstance(e.value, ast.Name) and e.value.id in ("math", "np") \
+                and e.attr in ("pi", "tau", "e", "inf"):
+            return True
+        return False
+
+    def _scope(self, node):
+        local = {a.arg for a in node.args.posonlyargs + node.args.args + node.args.kwonlyargs}
+        if node.args.vararg:
+            local.add(node.args.vararg.arg)
+        if node.args.kwarg:
+            local.add(node.args.kwarg.arg)
+        local |= {n.id for n in ast.walk(node) if isinstance(n, ast.Name) and isinstance(n.ctx, (ast.Store, ast.Del))}
+        return local
+
+    def visit_FunctionDef(self, node):
+        self.shadow.append(self._scope(node))
+        self.depth += 1
+        self.generic_visit(node)
+        self.depth -= 1
+        self.shadow.pop()
+        return node
+
+    visit_AsyncFunctionDef = visit_FunctionDef
+
+    def visit_Lambda(self, node):
+        self.shadow.append({a.arg for a in node.args.posonlyargs + node.args.args + node.args.kwonlyargs})
+        self.generic_visit(node)
+        self.shadow.pop()
+        return node
+
+    def visit_ClassDef(self, node):
+        self.depth += 1
+        self.generic_visit(node)
+        self.depth -= 1
+        return node
+
+    def visit_Name(self, node):
+        if self.depth and isinstance(node.ctx, ast.Load) and node.id in self.consts \
+                and not any(node.id in sh for sh in self.shadow):
+            import copy as _copy
+            v = _copy.deepcopy(self.consts[node.id])
+            # constants defined through other constants
+            return ast.copy_location(self.visit(v) if isinstance(v, (ast.Name, ast.BinOp, ast.Tuple, ast.UnaryOp, ast.Call)) else v, node)
+        return node
+
+
 NORMALISER_NOTES = []
 
 
@@ -774,6 +863,7 @@ def desugar_match(tree, renames=None):
     from verifkit import funcnorm
     passes = ([("renamed private fields", lambda t: _FieldRename(*renames).visit(t))] if renames and (renames[0] or renames[1]) else []) + [
               ("import names", lambda t: _ImportCanon(t).visit(t)),
+              ("module constants", lambda t: _ModuleConstants(t).visit(t)),
               ("higher-order spellings", funcnorm.normalise),
               ("method aliases", lambda t: _AliasInline(t).visit(t)),
               ("match statements", lambda t: _MatchDesugar().visit(t)),
